@@ -54,7 +54,29 @@ fn main() {
             let text = std::fs::read_to_string(&args[2]).expect("read replay");
             let j = json::parse(&text).expect("json");
             match run_replay(&j) {
-                Ok(r) => println!("{}", r.render()),
+                Ok(r) => {
+                    println!("{}", r.render());
+                    // verdict: does the violating (last) call still behave as recorded?
+                    let v = Violation { prop: String::new(), kind: String::new(), msg: String::new(), replay: j.clone() };
+                    if j.get("expect_last").is_some() {
+                        match validate_replay(&v) {
+                            Ok(()) => {
+                                println!("reproduced: true (the last call behaves as recorded when the violation was reported)");
+                                std::process::exit(1);
+                            }
+                            Err(m) => println!("reproduced: false ({})", m),
+                        }
+                    } else if let Some(exp) = j.get("expect_replay_output") {
+                        if exp.render() == r.render() {
+                            println!("reproduced: true (the replay shows the same behaviour as when the violation was reported)");
+                            std::process::exit(1);
+                        } else {
+                            println!("reproduced: false (the behaviour recorded with the violation was {})", exp.render().replace('\n', " "));
+                        }
+                    } else {
+                        println!("reproduced: not decided by the replay (no expectation recorded; compare the observation above with detail.message)");
+                    }
+                }
                 Err(m) => {
                     eprintln!("replay failed: {}", m);
                     std::process::exit(2);
@@ -194,6 +216,13 @@ fn cmd_check(args: &[String]) {
         rj.put("property", J::s(&prop));
         rj.put("kind", J::s(&v.kind));
         rj.put("signature", J::s(&sig));
+        // replays without a per-call expectation carry what the replay shows now (on the tree
+        // that violates), so that `--replay` can later say whether the behaviour is still there
+        if v.replay.get("expect_last").is_none() && v.replay.get("engine").is_some() {
+            if let Ok(r) = run_replay(&v.replay) {
+                rj.put("expect_replay_output", r);
+            }
+        }
         let _ = std::fs::write(&path, rj.render());
         if v.replay.get("engine").is_some() && v.replay.get("calls").is_some() {
             if let Err(m) = validate_replay(v) {
@@ -449,6 +478,16 @@ fn run_check(prop: &str, tier: Tier) -> CheckOut {
                 stats.merge(&s);
                 vios.merge(v);
             }
+            if prop == "C09" && only != "x" {
+                let (s, v) = sweep::c09::run(tier);
+                stats.merge(&s);
+                vios.merge(v);
+            }
+            if prop == "C12" && only != "x" {
+                let (s, v) = sweep::c12::run(tier);
+                stats.merge(&s);
+                vios.merge(v);
+            }
             if prop == "C18" && only != "x" {
                 let (s, v) = sweep::c15::run(tier, "C18");
                 stats.merge(&s);
@@ -529,6 +568,7 @@ fn cmd_xdec(args: &[String]) {
         tag_single: "C01",
         few_caps: arg(args, "--fewcaps").unwrap_or("0") == "1",
         mixed: arg(args, "--mixed").unwrap_or("0") == "1",
+        mixed_sink: arg(args, "--mixed").unwrap_or("0") == "1",
     };
     let t = Instant::now();
     println!("{} syms {} k {}", cfg.label(), cfg.syms.len(), k);
